@@ -25,6 +25,14 @@ CHECKS = {
             "DESIGN.md §3 C20"),
 }
 
+CHECKS["C05"] = ("exploration",
+    "runtime monitor with an exact LP oracle (scipy linprog/highs) for the pinball optimum; score compared with "
+    "a reference pinball loss; weights-vs-duplication and rival-hyperplane monotonicity monitors",
+    "Each generated regression problem is fitted by the real IRLS and its pinball loss compared with the exact LP "
+    "optimum (relative gap <= 1e-3, worst observed gap reported); score must equal twice the mean pinball loss of the "
+    "same quantile to 1e-12 on train and fresh data.",
+    "DESIGN.md §3 C05")
+
 PENDING = {}
 
 
